@@ -212,6 +212,10 @@ def make_isinstance(world_ref):
             if cls.pytypes:
                 return isinstance(v, cls.pytypes)
             return False
+        if cls is _int:
+            cls = int
+        elif cls is _float:
+            cls = float
         if isinstance(cls, type):
             if cls in (int, float):
                 if isinstance(v, bool):
@@ -259,7 +263,10 @@ class Net(OpaqueNode):
         return f"<{self.kind} {self.name}>"
 
     def _fp(self, p):
-        return param_fingerprint(p, self.name)
+        fp = param_fingerprint(p, self.name)
+        if fp[0].name != self.name:
+            raise Finding(f"network {self.name} is called with the network parameters of {fp[0].name}")
+        return fp
 
     def __call__(self, *args):
         if self.eq_type == 'ODE':
@@ -309,34 +316,50 @@ class Net(OpaqueNode):
                 [Poly.atom(('U', self.name, k, (), tuple(slots), fp, frozenset(deps))) for k in range(self.m)], dtype=object))
         # SPINN
         axes, slots = [], []
+        deps = set()
         if self.has_t:
             t = to_at(t)
-            if len(t.axes) != 2 or t.axes[1] != 1 or isinstance(t.axes[0], int):
+            if len(t.axes) != 2 or t.axes[1] != 1:
                 raise Finding(f"{self.name}: SPINN time argument has axes {t.axes}, expected (rows, 1)")
-            pt_ = t.data[0]
+            if isinstance(t.axes[0], int) and t.axes[0] != 1:
+                raise Top("SPINN with several concrete rows")
+            pt_ = t.data[0] if not isinstance(t.axes[0], int) else t.data[0, 0]
             a = pt_.single_atom()
             if pt_.is_const():
                 slots.append(f"t={pt_}")
             elif not (a is not None and a[0] == 'T'):
                 raise Finding(f"{self.name}: SPINN time slot receives `{pt_}`")
-            axes.append("Gt")
+            if isinstance(t.axes[0], int):
+                axes.append(1)
+                deps |= pt_.deps()
+            else:
+                axes.append("Gt")
+                if not pt_.is_const():
+                    deps.add("Gt")
         else:
             slots.append("t=absent")
         x = to_at(x)
-        if len(x.axes) != 2 or x.axes[1] != self.d or isinstance(x.axes[0], int):
+        if len(x.axes) != 2 or x.axes[1] != self.d:
             raise Finding(f"{self.name}: SPINN space argument has axes {x.axes}, expected (rows, {self.d})")
+        if isinstance(x.axes[0], int) and x.axes[0] != 1:
+            raise Top("SPINN with several concrete rows")
         for j in range(self.d):
-            px = x.data[j]
+            px = x.data[j] if not isinstance(x.axes[0], int) else x.data[0, j]
             a = px.single_atom()
             if not (a is not None and alg.var_key(a) == ('X', j)):
                 raise Finding(f"{self.name}: SPINN space slot {j} receives `{px}`")
-            axes.append(f"G{j}")
-        deps = set(axes)
-        if any(s.startswith("t=") and s != "t=absent" for s in slots):
-            deps.discard("Gt")
+            if isinstance(x.axes[0], int):
+                axes.append(1)
+                deps |= px.deps()
+            else:
+                axes.append(f"G{j}")
+                deps.add(f"G{j}")
         deps |= fp_deps(fp)
-        return AT(tuple(axes) + (self.m,), np.array(
-            [Poly.atom(('U', self.name, k, (), tuple(slots), fp, frozenset(deps))) for k in range(self.m)], dtype=object))
+        shape = tuple(a for a in axes if isinstance(a, int)) + (self.m,)
+        dat = np.empty(shape, dtype=object)
+        for idx in np.ndindex(shape):
+            dat[idx] = Poly.atom(('U', self.name, idx[-1], (), tuple(slots), fp, frozenset(deps)))
+        return AT(tuple(axes) + (self.m,), dat)
 
 
 def param_fingerprint(p, netname):
@@ -411,7 +434,10 @@ class VMapped:
         if len(in_axes) != len(args):
             raise Finding(f"vmap in_axes has {len(in_axes)} entries but the mapped function is applied to {len(args)} arguments")
         names = []
-        new = [strip(a, ia, names) for a, ia in zip(args, in_axes)]
+        try:
+            new = [strip(a, ia, names) for a, ia in zip(args, in_axes)]
+        except _ConcreteAxis as ca:
+            return self._concrete(args, in_axes, ca.n)
         uniq = sorted(set(names))
         if len(uniq) == 0:
             raise Finding("vmap must have at least one non-None value in in_axes")
@@ -422,6 +448,58 @@ class VMapped:
         if _dim(self.out_axes) != 0:
             raise Top("vmap out_axes != 0")
         return prepend(out, name)
+
+    def _concrete(self, args, in_axes, n):
+        """mapped axis of concrete size n: evaluate per index and stack"""
+        outs = []
+        for i in range(n):
+            sizes = []
+            new = [strip_concrete(a, ia, i, sizes) for a, ia in zip(args, in_axes)]
+            if len(set(sizes)) != 1:
+                raise Finding(f"vmapped inputs have different sizes along the mapped axis: {sorted(set(sizes))}")
+            outs.append(self.f(*new))
+        return stack_outputs(outs)
+
+
+class _ConcreteAxis(Exception):
+    def __init__(self, n):
+        self.n = n
+
+
+def strip_concrete(a, ia, i, sizes):
+    if ia is None:
+        return a
+    if isinstance(ia, (Poly, int, np.integer)):
+        if isinstance(a, AT):
+            if not a.axes or not isinstance(a.axes[0], int):
+                raise Finding(f"vmap mixes a concrete mapped axis with a row axis {a.axes}")
+            sizes.append(a.axes[0])
+            return a[i]
+        if isinstance(a, dict):
+            return {k: strip_concrete(v, ia, i, sizes) for k, v in a.items()}
+        if isinstance(a, (tuple, list)):
+            return type(a)(strip_concrete(v, ia, i, sizes) for v in a)
+        if isinstance(a, Inst):
+            return a.replace_fields({k: strip_concrete(a.fields[k], ia, i, sizes) for k in a.dynamic_field_names()})
+        if a is None:
+            return None
+        raise Top(f"vmap over {type(a).__name__}")
+    if isinstance(ia, Inst):
+        return a.replace_fields({k: strip_concrete(a.fields.get(k), ia.fields.get(k), i, sizes) for k in ia.fields if k in a.fields})
+    if isinstance(ia, dict):
+        return {k: strip_concrete(v, ia.get(k), i, sizes) for k, v in a.items()}
+    if isinstance(ia, (tuple, list)):
+        return type(a)(strip_concrete(v, j, i, sizes) for v, j in zip(a, ia))
+    raise Top(f"vmap in_axes entry {ia!r}")
+
+
+def stack_outputs(outs):
+    o0 = outs[0]
+    if isinstance(o0, tuple):
+        return tuple(stack_outputs([o[k] for o in outs]) for k in range(len(o0)))
+    if isinstance(o0, dict):
+        return {k: stack_outputs([o[k] for o in outs]) for k in o0}
+    return alg.jnp_stack([to_at(o) for o in outs], 0)
 
 
 def strip(a, ia, names):
@@ -434,7 +512,7 @@ def strip(a, ia, names):
             if not a.axes:
                 raise Finding("vmap over a 0-d tensor")
             if isinstance(a.axes[0], int):
-                raise Top(f"vmap over a concrete axis {a.axes}")
+                raise _ConcreteAxis(a.axes[0])
             names.append(a.axes[0])
             return AT(a.axes[1:], a.data)
         if isinstance(a, (dict,)):
